@@ -162,6 +162,16 @@ def from_jv(x):
     return from_wire_jv(x)
 
 
+def spread(objs, seed):
+    """the registered defaults as the service's entry points deliver them: one namespace, or several (one of them empty)"""
+    how = (seed // 2) % 3
+    if how == 0:
+        return {'ns': objs}
+    if how == 1:
+        return {'ns_a': objs[::2], 'ns_b': objs[1::2]}
+    return {'ns_b': objs[:1], 'ns_a': objs[1:2], 'ns_c': objs[2:], 'ns_empty': []}
+
+
 def one_round(seed, root_a, root_b, wd):
     """-> (violations, correspondence disagreements, evaluations, nontrivial keys, counts)"""
     import random
@@ -207,7 +217,7 @@ def one_round(seed, root_a, root_b, wd):
     shape = 'alias-to-new' if any('rule:svc:' in str(v) for v in f.values()) else \
         ('split' if any(k == 'svc:write' for k in f) else 'plain')
     try:
-        with mock.patch.object(generator, 'get_policies_dict', return_value={'ns': objs}), \
+        with mock.patch.object(generator, 'get_policies_dict', return_value=spread(objs, seed)), \
                 contextlib.redirect_stderr(io.StringIO()):
             generator.upgrade_policy(['--policy', src, '--namespace', 'ns', '--output-file', dst,
                                       '--format', fmt], conf=conf)
@@ -240,7 +250,7 @@ def one_round(seed, root_a, root_b, wd):
     shape = 'list-of-lists' if 'list-of-lists' in shapes else shapes[0]
     conf = cfg.ConfigOpts()
     try:
-        with mock.patch.object(generator, 'get_policies_dict', return_value={'ns': objs}):
+        with mock.patch.object(generator, 'get_policies_dict', return_value=spread(objs, seed)):
             generator.convert_policy_json_to_yaml(['--namespace', 'ns', '--policy-file', src,
                                                    '--output-file', dst], conf=conf)
         text = open(dst).read()
